@@ -29,4 +29,25 @@ def obligations(tier, sc):
                       out="contents of the attribute VALUES (only which keys are set is tracked; tid/pid/loom values are C12/C15 on the emulator side)",
                       oracle="the keys present in the final serialisation of stream.json are exactly the mandatory ones plus rank/nranks and loom_cpus iff set; finished = 1; the file ends up complete in the trace directory",
                       assumptions=["content-free parson ghost that records which keys are set (stubs/ghostfs.h)"])))
+    # "consequently the emulator accepts the trace": the marker pair is appended after whatever event filled the
+    # buffer, so the emulator must take OF[ / OF] in every thread state (C04's topology, real pre_flush)
+    import re, os
+    from vp.core import REPO
+    from checks import C04 as _c04
+    setup = open(os.path.join(REPO, "src/emu/ovni/setup.c")).read()
+    if not re.search(r"static const int chan_stack\[CH_MAX\] = \{ 0 \};", setup) or ".ch_dup" in setup:
+        raise RuntimeError("the ovni model's flush channel is no longer a plain CHAN_SINGLE channel: emu_flush_pair_* builds it by hand")
+    for cfg in (1, 4 * 3):   # none/cpu0, vcpu/none: one thread unbound (not started / dead), one bound (running/paused/cooling/warming); the flusher is symbolic
+        b0, b1 = cfg // 4, cfg % 4
+        obs.append(Obligation(
+            name="emu_flush_pair_th0-%s_th1-%s" % (_c04.NAMES[b0], _c04.NAMES[b1]), harness="C04/step.c",
+            defines=["CFG=%d" % cfg, "CATS=1", "FLUSHPAIR"], timeout=600,
+            desc=dict(functions=["model_ovni_event", "pre_flush", "chan_set", "chan_flush", "chan_read"] + _c04.REAL_FUNCS[8:],
+                      symbolic="thread states of both threads (every state compatible with the binding: not started, running, paused, cooling, warming, dead), "
+                               "which thread flushes, both marker clocks (non-decreasing)",
+                      bound="2 threads; binding th0=%s th1=%s; one OF[ OF] pair" % (_c04.NAMES[b0], _c04.NAMES[b1]),
+                      out="stream_step's clock check (C03/C12); burst/mark/unordered categories",
+                      oracle="both markers accepted in every thread state; flush channel = flushing in between, null afterwards; thread/CPU state unchanged",
+                      assumptions=_c04.ASSUMPTIONS + ["flush channel built as model_thread_create builds it (CHAN_SINGLE, no property; the spec tables are checked textually on every run)"]),
+            **_c04.COMMON))
     return obs
